@@ -608,12 +608,38 @@ class SimAccessory:
         return conn.send_http(400, "Bad Request")
 
 
+def canon_host(h):
+    import ipaddress
+    try:
+        zone = ""
+        if isinstance(h, str) and "%" in h:
+            h, zone = h.split("%", 1)
+            zone = "%" + zone
+        return ipaddress.ip_address(h).compressed + zone
+    except ValueError:
+        return h
+
+
+class _HostMap(dict):
+    def __setitem__(self, k, v):
+        super().__setitem__(canon_host(k), v)
+
+    def __getitem__(self, k):
+        return super().__getitem__(canon_host(k))
+
+    def __contains__(self, k):
+        return super().__contains__(canon_host(k))
+
+    def get(self, k, d=None):
+        return super().get(canon_host(k), d)
+
+
 class Net:
     """Replaces aiohappyeyeballs.start_connection and loop.create_connection."""
 
     def __init__(self, loop):
         self.loop = loop
-        self.accessories = {}            # host -> SimAccessory
+        self.accessories = _HostMap()    # host -> SimAccessory (any spelling of an address names the same host)
         self.connect_policy = lambda host, n: "accept"     # -> "accept" | "refuse" | "hang" | ("accept", latency)
         self.calls = []                  # (time, [hosts], outcome)
         self.log = []
@@ -646,7 +672,12 @@ class Net:
                     return FakeSocket(self, host, port)
                 if pol == "hang":
                     hung = True
-                    await asyncio.sleep(happy_eyeballs_delay or 0.25)
+                    if happy_eyeballs_delay is None:
+                        # without a stagger delay the addresses are tried strictly one after the other (aiohappyeyeballs / RFC 8305): a SYN that is
+                        # never answered holds the whole call until the caller's timeout
+                        rec[2] = "hang"
+                        await self.loop.create_future()
+                    await asyncio.sleep(happy_eyeballs_delay)
                     continue
                 last = ConnectionRefusedError(111, f"Connect call failed ({host!r}, {port})")
             if hung:
